@@ -68,7 +68,7 @@ func kesSigRegion(depth, bit int) string {
 
 func TestC39(t *testing.T) {
 	rec := evi.New(t, "C39", evi.Exploration,
-		"cases = (depth 1..6, 32-byte seed, message 0..300 bytes) drawn by rapid; the key is evolved through EVERY period 0..2^depth-1; at each checked period t (all periods for depth<=4; 0,1,mid-1,mid,last-1,last + random ones for depth 5-6) the signature must verify at t on every public path (SumXKesSig.Verify; VerifySignedKES and ledger.VerifyKesComponents for depth 6) and under an independent tree-materialising reference verifier, and must fail at EVERY other in-range period, at out-of-range periods, for changed messages, changed/foreign keys and bit flips of the signature (exhaustive for depth<=2 and for 1 in 8 other cases, else stratified sample); public key (cached and recomputed from key data) must stay constant; signing for any other period must error or give a non-verifying signature, also with a re-labelled Period field; the evolved key data must not contain any seed from which an earlier leaf is derivable. non-trivial = (key, period t>=1) pair with all of the above evaluated; distinct by (depth, seed, t, message)")
+		"cases = (depth 1..6, 32-byte seed, message 0..300 bytes) drawn by rapid; the key is evolved through EVERY period 0..2^depth-1; at each checked period t (all periods for depth<=4; 0,1,mid-1,mid,last-1,last + random ones for depth 5-6) the signature must verify at t on every public path (SumXKesSig.Verify; VerifySignedKES and ledger.VerifyKesComponents for depth 6) and under an independent tree-materialising reference verifier, and must fail at EVERY other in-range period, at out-of-range periods, for changed messages, changed/foreign keys and bit flips of the signature (exhaustive for depth<=2 and for 1 in 8 other cases, else stratified sample); public key (cached and recomputed from key data) must stay constant; signing for an earlier period must be refused, signing for a later one must error or give a non-verifying signature, also with a re-labelled Period field; the evolved key data must not contain any seed from which an earlier leaf is derivable. non-trivial = (key, period t>=1) pair with all of the above evaluated; distinct by (depth, seed, t, message)")
 	defer rec.Finish()
 	rec.Assume(
 		"crypto/ed25519 and blake2b are trusted by both sides",
@@ -359,6 +359,18 @@ func TestC39(t *testing.T) {
 					rec.Eval()
 					if err == nil {
 						rec.Class("sign_other_period_no_error")
+						if o < tp {
+							// "an evolved key cannot sign for an earlier period": a successful Sign is a
+							// signature made for period o; whatever the bytes are (here they may verify at
+							// the key's own period instead), the request must not succeed
+							at := "no checked period"
+							if refKesVerify(depth, pk0, tp, msg, s2) {
+								at = fmt.Sprintf("period %d (the key's own)", tp)
+							}
+							rec.Fail(rt, "sign-for-earlier-period-succeeds",
+								fmt.Sprintf("Sign with a depth-%d key evolved to period %d, asked for the earlier period %d, returned a signature and no error (the bytes verify at %s)", depth, tp, o, at), cs)
+							return
+						}
 						if !neg("evolved-key-signs-"+kind+"-period", fmt.Sprintf("key at period %d produced a signature for period %d that verifies there", tp, o), pk0, o, msg, s2) {
 							return
 						}
